@@ -1,0 +1,160 @@
+//! Hooks for the naming registry (C11/C12/C13): a message handled by the REAL `NamingActor`
+//! that sets the (small) time-outs, runs the parts of the 2 s driver that have no `NamingCmd`,
+//! and dumps the bookkeeping state read-only.
+use crate::naming::core::NamingActor;
+use crate::naming::model::{Instance, InstanceKey, InstanceShortKey, ServiceKey};
+use crate::TimeoutSet;
+use actix::prelude::*;
+use serde_json::{json, Value};
+use std::sync::Arc;
+
+#[derive(Debug, Message)]
+#[rtype(result = "anyhow::Result<Value>")]
+pub enum VerifNamingReq {
+    /// instance_health_timeout_millis, instance_timeout_millis, service_time_out_millis,
+    /// instance_metadata_time_out_millis, once_time_check_size
+    SetConfig(i64, i64, u64, u64, usize),
+    ClearEmptyService,
+    ClearTimeoutInstanceMetadata,
+    /// candidate times (ascending) used to slice the time-out sets
+    Dump(Vec<u64>),
+    HashOf(ServiceKey),
+}
+
+fn dump_ts<T, F: Fn(&T) -> Value>(ts: &TimeoutSet<T>, times: &[u64], f: F) -> Value {
+    let mut out = vec![];
+    let mut seen = 0usize;
+    let mut all: Vec<u64> = times.to_vec();
+    all.push(u64::MAX);
+    for t in all {
+        let vals = ts.get_timeout_values(t);
+        for (i, v) in vals.iter().enumerate() {
+            if i >= seen {
+                out.push(json!([t, f(v)]));
+            }
+        }
+        seen = vals.len();
+    }
+    Value::Array(out)
+}
+
+fn short_key(k: &InstanceShortKey) -> Value {
+    json!([k.ip.as_str(), k.port])
+}
+
+fn service_key(k: &ServiceKey) -> Value {
+    json!([
+        k.namespace_id.as_str(),
+        k.group_name.as_str(),
+        k.service_name.as_str()
+    ])
+}
+
+fn instance_key(k: &InstanceKey) -> Value {
+    json!([
+        k.namespace_id.as_str(),
+        k.group_name.as_str(),
+        k.service_name.as_str(),
+        k.ip.as_str(),
+        k.port
+    ])
+}
+
+pub fn instance_json(i: &Instance) -> Value {
+    json!({
+        "ip": i.ip.as_str(), "port": i.port, "weight": i.weight, "enabled": i.enabled,
+        "healthy": i.healthy, "ephemeral": i.ephemeral,
+        "metadata": i.metadata.as_ref(),
+        "last_modified": i.last_modified_millis, "from_grpc": i.from_grpc,
+        "from_cluster": i.from_cluster, "client_id": i.client_id.as_str(),
+        "namespace_id": i.namespace_id.as_str(), "group_name": i.group_name.as_str(),
+        "service_name": i.service_name.as_str(),
+    })
+}
+
+impl NamingActor {
+    fn verif_dump(&self, times: &[u64]) -> Value {
+        let mut services = vec![];
+        for (k, s) in &self.service_map {
+            let instances: Vec<Value> = s
+                .instances
+                .iter()
+                .map(|(sk, i)| json!([short_key(sk), instance_json(i)]))
+                .collect();
+            let perpetual: Vec<Value> = s.perpetual_host_set.iter().map(short_key).collect();
+            let meta: Vec<Value> = s
+                .instance_metadata_map
+                .iter()
+                .map(|(sk, m)| json!([short_key(sk), m.as_ref()]))
+                .collect();
+            services.push(json!({
+                "map_key": service_key(k),
+                "key": service_key(&s.get_service_key()),
+                "instance_size": s.instance_size,
+                "healthy_instance_size": s.healthy_instance_size,
+                "instances": instances,
+                "perpetual": perpetual,
+                "meta_map": meta,
+                "hset": dump_ts(&s.healthy_timeout_set, times, short_key),
+                "uset": dump_ts(&s.unhealthy_timeout_set, times, short_key),
+                "protect_threshold": s.protect_threshold,
+                "last_empty_times": s.last_empty_times,
+            }));
+        }
+        let clients: Vec<Value> = self
+            .client_instance_set
+            .iter()
+            .map(|(c, set)| json!([c.as_str(), set.iter().map(instance_key).collect::<Vec<_>>()]))
+            .collect();
+        let mut ns = vec![];
+        for (n, idx) in &self.namespace_index.namespace_group {
+            let groups: Vec<Value> = idx
+                .group_service
+                .iter()
+                .map(|(g, set)| json!([g.as_str(), set.iter().map(|x| x.as_str()).collect::<Vec<_>>()]))
+                .collect();
+            ns.push(json!([n.as_str(), idx.service_size, groups]));
+        }
+        json!({
+            "services": services,
+            "clients": clients,
+            "index": {"service_size": self.namespace_index.service_size, "ns": ns},
+            "empty_set": dump_ts(&self.empty_service_set, times, service_key),
+            "meta_set": dump_ts(&self.instance_metadate_set, times, instance_key),
+            "range": self.current_range.as_ref().map(|r| json!([r.index, r.len])),
+        })
+    }
+}
+
+impl Handler<VerifNamingReq> for NamingActor {
+    type Result = anyhow::Result<Value>;
+
+    fn handle(&mut self, msg: VerifNamingReq, _ctx: &mut Context<Self>) -> Self::Result {
+        match msg {
+            VerifNamingReq::SetConfig(h, i, s, m, n) => {
+                self.sys_config.instance_health_timeout_millis = h;
+                self.sys_config.instance_timeout_millis = i;
+                self.sys_config.service_time_out_millis = s;
+                self.sys_config.instance_metadata_time_out_millis = m;
+                self.sys_config.once_time_check_size = n;
+                Ok(Value::Null)
+            }
+            VerifNamingReq::ClearEmptyService => {
+                self.verif_clear_empty_service();
+                Ok(Value::Null)
+            }
+            VerifNamingReq::ClearTimeoutInstanceMetadata => {
+                self.verif_clear_timeout_instance_metadata();
+                Ok(Value::Null)
+            }
+            VerifNamingReq::Dump(times) => Ok(self.verif_dump(&times)),
+            VerifNamingReq::HashOf(k) => {
+                Ok(json!(crate::common::hash_utils::get_hash_value(&k)))
+            }
+        }
+    }
+}
+
+pub fn arc(s: &str) -> Arc<String> {
+    Arc::new(s.to_owned())
+}
